@@ -49,7 +49,7 @@ Theorem C04_list_growth : forall sn pl st' c',
     st_canary (e_strategy e) = Some cspec /\ cs_rs c' = r_name u /\
     ca_replicas cspec = Some rep /\ resolve_iop rep (es_desired (e_status e)) = Some nb /\
     (forall nn, In nn (cs_nodes c') -> valid_canary_node sn cspec u nn) /\
-    nb <= zlen (cs_nodes c') /\
+    (nb <= zlen (cs_nodes c') \/ ep_error pl = true) /\
     (zlen (cs_nodes c') <= nb \/ incl (cs_nodes c') (status_canary_nodes (e_status e))).
 Proof. exact sync_nodes_valid_at_selection. Qed.
 Print Assumptions C04_list_growth.
